@@ -88,12 +88,13 @@ def printer_control_f3(ctx):
 
 
 def c02(ctx):
-    for sl in tier(ctx, ["qcls", "wrap", "smoke"], ["cls", "wrap", "panic", "smoke"]):
+    for sl in tier(ctx, ["qcls", "wrap", "smoke", "dir"], ["cls", "wrap", "panic", "smoke", "dir"]):
         printer_slice(ctx, sl)
 
 
 def c05(ctx):
     printer_slice(ctx, tier(ctx, "qcls", "cls"))
+    printer_slice(ctx, "dir")
 
 
 def c06(ctx):
@@ -253,6 +254,7 @@ def c01(ctx):
     if ctx.tier == "thorough":
         printer_slice(ctx, "smoke")
         printer_slice(ctx, "panic")
+        printer_slice(ctx, "dir")
 
 
 def c03(ctx):
